@@ -81,7 +81,11 @@ def r111(ctx):
             t = ast.unparse(par.test)
             if "quantis" in t and "lambda_minus_one" in t and isinstance(par.test, ast.BoolOp) and isinstance(par.test.op, ast.And):
                 found = True
-                ctx.ok(rid, r, "check_config rejects quantis together with lambda_minus_one (quantis_swap_zero has no '0-L' branch)")
+                if "lambda_minus_one is not False" in t:
+                    ctx.ok(rid, r, "check_config rejects quantis together with any set lambda_minus_one (quantis_swap_zero has no '0-L' branch)")
+                else:
+                    ctx.bad(rid, r, "check_config excludes quantis + lambda_minus_one by truthiness: lambda_minus_one = 0.0 is accepted although quantis_swap_zero has no '0-L' rejection",
+                            construct="if " + t)
     if not found:
         ctx.bad(rid, cc, "quantis_swap_zero has no early '0-L' rejection and check_config does not exclude quantis together with lambda_minus_one")
 
@@ -366,7 +370,8 @@ VARIANTS = [
     B("c11-early-reject-after-propagate", TIS, '    # if lambda_minus_one, reject early if path_old0\n    if set(ens_set0["start_cond"]) == set(["L", "R"]):\n        if path_old0.check_interfaces(ens_set0["interfaces"])[1] == "L":\n            return False, [path_old0, path_old1], "0-L"\n', "", "R-11.1", control=True,
       also=[(TIS, '    path0 = path_tmp.empty_path(maxlen=maxlen0)\n    for phasepoint in reversed(path_tmp.phasepoints):', '    if set(ens_set0["start_cond"]) == set(["L", "R"]):\n        if path_old0.check_interfaces(ens_set0["interfaces"])[1] == "L":\n            return False, [path_old0, path_old1], "0-L"\n    path0 = path_tmp.empty_path(maxlen=maxlen0)\n    for phasepoint in reversed(path_tmp.phasepoints):')]),
     B("c11-early-reject-removed", TIS, '        if path_old0.check_interfaces(ens_set0["interfaces"])[1] == "L":\n            return False, [path_old0, path_old1], "0-L"\n', '        if path_old0.check_interfaces(ens_set0["interfaces"])[1] == "L":\n            logger.info("0-L")\n', "R-11.1"),
-    B("c11-quantis-lambda-allowed", SETUP, "    if quantis and lambda_minus_one:\n        raise TOMLConfigError(\"Cannot run quantis with lambda_minus_one!\")", "    if quantis and lambda_minus_one:\n        logger.info(\"quantis with lambda_minus_one\")", "R-11.1"),
+    B("c11-quantis-lambda-allowed", SETUP, "    if quantis and lambda_minus_one is not False:\n        raise TOMLConfigError(\"Cannot run quantis with lambda_minus_one!\")", "    if quantis and lambda_minus_one is not False:\n        logger.info(\"quantis with lambda_minus_one\")", "R-11.1"),
+    B("c11-quantis-lambda-truthiness", SETUP, "    if quantis and lambda_minus_one is not False:", "    if quantis and lambda_minus_one:", "R-11.1", why="pre-fix F18.3"),
     B("c11-wrong-second-frame", TIS, "    phase_point = path_old1.phasepoints[1].copy()", "    phase_point = path_old1.phasepoints[2].copy()", "R-11.2", control=True),
     B("c11-forward-from-second-last", TIS, "    system = path_old0.phasepoints[-1].copy()", "    system = path_old0.phasepoints[-2].copy()", "R-11.2"),
     B("c11-second-last-after-segment", TIS, "        path1.append(phase_point)\n        path1 += path_tmp  # Add rest of the path.", "        path1 += path_tmp  # Add rest of the path.\n        path1.append(phase_point)", "R-11.2"),
